@@ -18,7 +18,9 @@ ENGINE = {'name': 'msmall',
          'on a fresh one, socket reads counted, connection drained and compared, allocation measured); clock: 13 windows x 7 fixed-offset zones x boundary '
          'and random instants, plus 7 daylight-saving zones (northern, southern, Local set to a DST zone) x instants in both halves of 2026 and within '
          'the hour around every switch x windows whose edges lie half an hour around the local time, the reference and the model taking the offset '
-         'in force at the instant; remote_ip/local_ip/not{remote_ip}: 8 range sets x first/last/neighbour addresses of every range, random, mapped, '
+         'in force at the instant; remote_ip/local_ip/not{remote_ip}: 26 range lists of 1-8 entries (disjoint, nested narrow-then-wide and wide-then-narrow, same base with '
+         'different prefix lengths, single addresses inside later CIDRs, duplicates, private ranges mixed with literals, IPv4 / IPv6 / IPv4-mapped, '
+         '6 random nestings per run; socks4 networks likewise) x first, last, both neighbours of both boundaries and a random inner address of EVERY range, reference = membership in the union; random, mapped, '
          'zoned and unparsable hosts as text addresses, and *net.TCPAddr / *net.UDPAddr values holding IPv4 in 16-byte and 4-byte form, IPv6 and '
          'zoned addresses. Sequence pass: 2n scenarios of 2-5 matchers evaluated one after the other on ONE connection (clock matchers of different zones/windows in '
          'every order, a clock inside not next to other clocks, remote_ip/local_ip with different range sets, one stream matcher under '
